@@ -16,8 +16,13 @@ operation of the API is one atomic transition, except the two iterating calls, w
   `LoadAndDeleteAll` does not empty the shared map but *detaches* it (the caller receives the detached map and the shared
   map starts again empty): a `Range` that is under way keeps reporting from the map it started on.  Nothing is promised
   about which keys are reported when the map changes meanwhile;
-* `CheckExpirations now` – a sequence of atomic removals, each of an entry whose value is expired at `now` at the instant
-  of removal; entries that are not expired are never touched.
+* `CheckExpirations now` – a sequence of atomic removals, each of an entry whose value is expired **at the time `now` the
+  caller passed** (`Element.IsExpired(now)`), at the instant of removal; entries that are not expired at `now` are never
+  touched.  "Expired" is always relative to that argument, not to the clock: a caller may pass a time ahead of the clock
+  (`udp/server` sweeps with `time.Now()+10ms`; such a sweep removes entries that `Cache.Load`, which asks the clock, would
+  still return a moment earlier) or behind it (then entries the clock already considers expired stay).  Both are
+  linearizable behaviours of this specification.  In histories `sweep` passes the clock value read when the call starts,
+  `sweep:<t>` passes `t`.
 -/
 namespace CoapVerif.Spec.SeqMap
 
@@ -77,7 +82,8 @@ inductive Op
   | loadAndDeleteWithFunc (k : Nat) (d : Nat)
   | cacheLoadOrStore (k : Nat) (v : Val)
   | cacheLoad (k : Nat)
-  | sweep (now : Option Nat)                          -- CheckExpirations(time.Now()): the time is read when it starts
+  | sweep (now : Option Nat)                          -- CheckExpirations(now): `some t` = the caller passed t; `none` = it will pass
+                                                      -- the clock value it reads when the call starts (`time.Now()`)
   | tick (d : Nat)
   deriving DecidableEq, Repr
 
